@@ -125,6 +125,9 @@ fn evaluate_id(args: &[Value]) -> Value {
     match args.first() {
         Some(Value::NodeId(id)) => Value::Int(*id as i64),
         Some(Value::EdgeKey(edge_key)) => Value::Int(edge_key.src as i64),
+        // the same entities once a row holds their materialised value (after an update clause)
+        Some(Value::Node(node)) => Value::Int(node.id as i64),
+        Some(Value::Relationship(rel)) => Value::Int(rel.key.src as i64),
         _ => Value::Null,
     }
 }
